@@ -474,8 +474,7 @@ fn lookup<'a>(root: &'a Elem, path: &str) -> Option<(&'a Elem, Option<&'a xmlstr
 
 /// is the case inside the property's domain, and which class does a delimiter inside the body get?
 fn domain(exps: &[Expect]) -> (bool, &'static str) {
-    let in_domain = exps.iter().all(|e| e.value.chars().all(xmlstrict::is_char))
-        && exps.iter().all(|e| e.kind != Kind::Fragment || xmlstrict::parse_content(&e.value).is_ok());
+    let in_domain = exps.iter().all(|e| e.kind != Kind::Fragment || xmlstrict::parse_content(&e.value).is_ok());
     let cls = if exps.iter().any(|e| e.kind == Kind::Payload && (e.value.contains('<') || e.value.contains('&') || e.value.contains("]]>"))) {
         "text-payload-raw"
     } else if exps.iter().any(|e| e.kind == Kind::Fragment && e.value.contains("]]>]]>")) {
@@ -495,10 +494,11 @@ fn judge(
     sink: &mut Sink,
     case: &str,
 ) -> Option<String> {
-    // values that cannot be represented in XML 1.0 at all are outside the property's domain
+    // a value that XML 1.0 cannot represent at all (not even as a character reference) must not be
+    // sent: whatever is on the wire is not a well-formed document
     if exps.iter().any(|e| !e.value.chars().all(xmlstrict::is_char)) {
-        sink.count("out-of-domain.non-xml-char-value");
-        return None;
+        sink.count("non-xml-char-value.sent");
+        return Some("non-xml-char-sent".into());
     }
     // ill-formed caller-supplied fragments are outside the property's domain
     let mut frag_trees: Vec<(usize, Vec<Node>)> = vec![];
@@ -653,7 +653,8 @@ fn probe() -> String {
     let p = bit(&["load-configuration", &format!("text:merge:{}", hexs("<"))], &|r| has(r, b"&lt;"));
     let w = bit(&["get", &format!("x:{}", hexs("\n"))], &|r| has(r, b"&#10;"));
     let g = bit(&["edit-config", "candidate", "merge", "stop-on-error", "test-then-set", &format!("c:{}", hexs("<a x=\"]]>]]>\"/>"))], &|r| r.is_err());
-    format!("c{p}{w}{g}")
+    let x = bit(&["commit-configuration", "0", "~", "~", &hexs("\u{1}"), "~"], &|r| r.is_err());
+    format!("c{p}{w}{g}{x}")
 }
 
 fn text_values(opts: &Opts, rng: &mut Rng) -> Vec<String> {
@@ -680,6 +681,12 @@ fn text_values(opts: &Opts, rng: &mut Rng) -> Vec<String> {
         "<!-- c -->",
         "--></rpc>]]>]]><rpc message-id=\"9\">",
         "\u{1}",
+        "a\u{0}b",
+        "\u{b}",
+        "x\u{1f}",
+        "\u{fffe}",
+        "ok\u{ffff}",
+        "\u{7f}\u{80}\u{9f}",
     ]
     .iter()
     .map(|s| s.to_string())
@@ -1178,14 +1185,14 @@ pub fn main(opts: &Opts) {
     let mut rng = Rng::new(opts.seed);
     let mut sink = Sink::new();
     let t0 = std::time::Instant::now();
-    // the model variant is fixed by the registration (`cfg=c101` = the code as it is in /repo now);
+    // the model variant is fixed by the registration (`cfg=c1011` = the code as it is in /repo now);
     // a probe result that differs is reported as a correspondence break, it does not re-target the model
     let probed = probe();
     let cfg = opts.extra.iter().find_map(|e| e.strip_prefix("cfg=").map(|s| s.to_string())).unwrap_or_else(|| probed.clone());
     sink.corr("variant-probe", format!("ser variant {cfg}"), probed.clone());
     sink.notes.push(format!(
-        "implementation variant probed as {cfg} (c<text/JSON payload escaped><TAB/LF/CR written as references><marker guard in to_xml>); \
-         c000 = Cfg.pinned, c111 = Cfg.fixed"
+        "implementation variant probed as {cfg} (c<text/JSON payload escaped><TAB/LF/CR written as references><marker guard in to_xml><XML Char guard in to_xml>); \
+         c0000 = Cfg.pinned, c1111 = Cfg.fixed"
     ));
     let mut cases = vec![];
     if let Some(p) = &opts.replay {
@@ -1209,8 +1216,8 @@ pub fn main(opts: &Opts) {
     sink.add("cases", cases.len() as u64);
     sink.add("wall_ms", t0.elapsed().as_millis() as u64);
     sink.notes.push(
-        "domain: values are strings of XML 1.0 Chars; fragments are well-formed `content`; values with other \
-         characters / ill-formed fragments are exercised for correspondence only (out-of-domain.* counters)"
+        "domain: all strings as values (a value XML 1.0 cannot carry must be refused); fragments are well-formed \
+         `content`; ill-formed fragments are exercised for correspondence only (out-of-domain.* counters)"
             .into(),
     );
     sink.write(opts, "ser");
